@@ -354,6 +354,10 @@ theorem C10_datediff_additive (u : DUnit) (a b c : Int × Int) :
 /-- TRIM(s) strips blanks -/
 theorem C10_trim_partial (s : List Char) : trimImpl s none = trimSpec s none := rfl
 
+/-- TRIM(x::varchar, chars): with the operand explicitly cast to text the node is left as it is and the characters are
+    stripped as documented, for every string and character set -/
+theorem C10_trim_text_cast (s : List Char) (chars : Option (List Char)) : trimImplG true s chars = trimSpec s chars := rfl
+
 /-- C10/trim-chars — `TRIM(s, chars)`: the characters argument is dropped -/
 theorem finding_trim_chars : trimImpl "xxaxx".toList (some ['x']) = "xxaxx".toList ∧ trimSpec "xxaxx".toList (some ['x']) = ['a'] := by
   decide
